@@ -10,7 +10,7 @@ from __future__ import annotations
 import ast
 
 from mlmverif import cfg as cfgm
-from mlmverif.core import (parent_map, AnalysisError, Ctx, FuncInfo, is_self_attr, unparse,
+from mlmverif.core import (kwarg, parent_map, AnalysisError, Ctx, FuncInfo, is_self_attr, unparse,
                            walk_no_nested)
 from mlmverif.props import c20
 
@@ -39,7 +39,7 @@ CU = 'utils.courier_utils'
 
 
 def run(ctx: Ctx):
-  for r in (r1, r2, r3, r4, r5, r6, r7, r8, r11):
+  for r in (r1, r2, r3, r4, r5, r6, r7, r8, r11, r12, r13, r14):
     ctx.guard(r)
   from mlmverif.props import c15
   from mlmverif.props import c05
@@ -699,12 +699,199 @@ def r11(ctx: Ctx):
   ctx.floor(rule, 2, n)
 
 
+def _resolve_local(e: ast.AST, fn: ast.AST, depth: int = 0) -> ast.AST:
+  """Follows a local name that has exactly one plain assignment in the function."""
+  while isinstance(e, ast.Name) and depth < 4:
+    defs = [x.value for x in ast.walk(fn) if isinstance(x, ast.Assign) and len(x.targets) == 1
+            and isinstance(x.targets[0], ast.Name) and x.targets[0].id == e.id]
+    aug = any(isinstance(x, ast.AugAssign) and isinstance(x.target, ast.Name) and x.target.id == e.id
+              for x in ast.walk(fn))
+    if len(defs) != 1 or aug:
+      return e
+    e, depth = defs[0], depth + 1
+  return e
+
+
+def r12(ctx: Ctx):
+  rule = 'R-C06-12'
+  ctx.rule(rule, 'sampling without replacement is total: every'
+           ' random.sample(population, k) / np.random.choice(n, size, replace=False)'
+           ' draws at most as many as there are — k is `len(population)` or a'
+           ' min(...) that has len(population) among its arguments. as_completed'
+           ' reserves back-up workers this way while results are still outstanding:'
+           ' a k larger than the candidates raises ValueError and aborts a run in'
+           ' which nothing failed (results never delivered)')
+  repo = ctx.repo
+  n = 0
+  for fi in repo.all_functions():
+    if fi.module.name.endswith(('_test', 'test_utils')):
+      continue
+    for c in walk_no_nested(fi.node):
+      if not isinstance(c, ast.Call):
+        continue
+      f = unparse(c.func)
+      pop = k = None
+      if f == 'random.sample' and c.args:
+        pop = f'len({unparse(c.args[0])})'
+        k = kwarg(c, 'k') or (c.args[1] if len(c.args) > 1 else None)
+      elif f in ('np.random.choice', 'numpy.random.choice') and c.args:
+        rep = kwarg(c, 'replace')
+        if not (isinstance(rep, ast.Constant) and rep.value is False):
+          continue
+        a0 = c.args[0]
+        pop = unparse(a0) if isinstance(a0, ast.Call) and unparse(a0.func) == 'len' else f'len({unparse(a0)})'
+        k = kwarg(c, 'size') or (c.args[1] if len(c.args) > 1 else None)
+      if pop is None:
+        continue
+      n += 1
+      if k is None:
+        ctx.ok(rule, fi, f'{f}: single draw', c)
+        continue
+      kv = _resolve_local(k, fi.node)
+      clamped = unparse(kv) == pop or (isinstance(kv, ast.Call) and unparse(kv.func) == 'min' and any(
+          unparse(a) == pop for a in kv.args))
+      if clamped:
+        ctx.ok(rule, fi, f'{f}: k = {unparse(kv)[:50]} is bounded by {pop}', c)
+      else:
+        ctx.fail(rule, fi, f'{fi.qualname}: {f} draws at most the population size',
+                 f'`{unparse(c)[:70]}` draws k = `{unparse(kv)[:50]}` elements without replacement;'
+                 f' nothing bounds k by {pop}: when fewer candidates than k exist the call'
+                 ' raises ValueError("Sample larger than population") — in as_completed that'
+                 ' aborts a fault-free run with results still outstanding', node=c)
+  ctx.floor(rule, 2, n)
+
+
+def r13(ctx: Ctx):
+  rule = 'R-C06-13'
+  ctx.rule(rule, '"calls may time out ... every task\'s result is delivered exactly once":'
+           ' a failed task is classified as transient (TimeoutError / is_timeout) BEFORE'
+           ' any other treatment: in the loops that inspect the running tasks, no'
+           ' log-and-drop, mark-as-failed or raise of a task with an exception is'
+           ' reachable from `exc := task.exception()` until the timeout test has'
+           ' answered — otherwise an option such as ignore_failures turns a retriable'
+           ' deadline-exceeded into a silently missing result')
+  repo = ctx.repo
+  n = 0
+  for fi in (_nested(repo.func(CW, 'WorkerPool.iterate'), 'iterate'), repo.func(ORCH, 'as_completed')):
+    g = cfgm.cfg_of(fi.node)
+    for lp in _task_loops(fi, g):
+      tv = lp.ast.target.id
+      body = g.reachable([lp], edge_ok=cfgm.only_normal)
+      starts = [nd for nd in body if nd.kind == 'cond' and any(
+          isinstance(x, ast.Call) and isinstance(x.func, ast.Attribute) and x.func.attr == 'exception'
+          and unparse(x.func.value) == tv for x in cfgm.node_exprs(nd))]
+      def classifies(e):
+        return any(isinstance(x, ast.Call) and (unparse(x.func).split('.')[-1] == 'is_timeout' or (
+            unparse(x.func) == 'isinstance' and len(x.args) == 2 and 'TimeoutError' in unparse(x.args[1])))
+                   for x in ast.walk(e))
+      flags = {t.id for x in ast.walk(fi.node) if isinstance(x, ast.Assign) and classifies(x.value)
+               for t in x.targets if isinstance(t, ast.Name)}
+
+      def is_timeout_test(nd, flags=flags):
+        return nd.kind == 'cond' and any(classifies(x) or (isinstance(x, ast.Name) and x.id in flags)
+                                         for x in cfgm.node_exprs(nd))
+      tests = [nd for nd in body if is_timeout_test(nd)]
+      if not starts or not tests:
+        raise AnalysisError(f'{rule}: {fi.qualname}: no `{tv}.exception()` test or no timeout classifier in the task loop')
+      for st in starts:
+        n += 1
+        first = [s_ for s_, lab in st.succ if lab == 'true' and not is_timeout_test(s_)]
+        early = g.reachable(first, avoid=lambda nd: is_timeout_test(nd) or nd is lp, edge_ok=cfgm.only_normal, include_src=True)
+        bad = [nd for nd in early if (d := _disposition(nd, tv)) and not d.startswith('retry')
+               and d != 'count' and d != 'yield']
+        if bad:
+          b = sorted(bad, key=lambda x_: x_.lineno)[0]
+          ctx.fail(rule, fi, f'{fi.qualname}: timeout classification precedes any other treatment of a failed {tv}',
+                   f'`{b.text()[:60]}` ({_disposition(b, tv)}) is reachable from `{st.text()[:40]}` before'
+                   ' the failure has been tested for TimeoutError / is_timeout: a call that merely'
+                   ' hit its deadline is dropped, marked failed or raised instead of being retried,'
+                   ' so its result is never delivered', node=b.ast)
+        else:
+          ctx.ok(rule, fi, f'{fi.qualname}: failed {tv} is classified as timeout-or-not first', st.ast)
+  ctx.floor(rule, 2, n)
+
+
+def r14(ctx: Ctx):
+  rule = 'R-C06-14'
+  ctx.rule(rule, '"as long as one worker stays usable": next_idle_worker hands out only'
+           ' workers that are alive AND have capacity — at every `return <worker>` both'
+           ' `<worker>.is_alive` and `<worker>.has_capacity` are known true on every path'
+           ' (must-facts from the tests passed since the worker was bound), for already'
+           ' owned workers as for freshly acquired ones (the sibling return sites agree).'
+           ' as_completed tries proven workers first without filtering them by liveness:'
+           ' a dead proven worker handed out again blocks submit() until the heartbeat'
+           ' threshold and then aborts the run although another worker is usable')
+  fi = ctx.repo.func(CW, 'WorkerPool.next_idle_worker')
+  g = cfgm.cfg_of(fi.node)
+
+  def gen(nd, lab):
+    if nd.kind != 'cond':
+      return ()
+    out = []
+    for c in cfgm.truthy_conjuncts(nd.ast, lab):
+      if isinstance(c, ast.Attribute) and isinstance(c.value, ast.Name):
+        out.append((c.value.id, c.attr))
+      elif isinstance(c, ast.Call) and isinstance(c.func, ast.Attribute) and isinstance(c.func.value, ast.Name):
+        out.append((c.func.value.id, c.func.attr))
+    return out
+
+  def kill(nd, fact):
+    var = fact[0]
+    if nd.kind == 'for_iter':
+      return any(isinstance(t, ast.Name) and t.id == var for t in ast.walk(nd.ast.target))
+    if isinstance(nd.ast, ast.Assign):
+      return any(isinstance(t, ast.Name) and t.id == var for tg in nd.ast.targets for t in ast.walk(tg))
+    # releasing the worker ends what is known about it
+    return any(isinstance(x, ast.Call) and isinstance(x.func, ast.Attribute) and x.func.attr == 'release'
+               and unparse(x.func.value) == var for x in cfgm.node_exprs(nd))
+
+  facts = cfgm.must_facts(g, gen, kill)
+  rets = [nd for nd in g.nodes if isinstance(nd.ast, ast.Return) and isinstance(nd.ast.value, ast.Name)
+          and nd.kind == 'stmt']
+  if not rets:
+    raise AnalysisError(f'{rule}: next_idle_worker returns no worker variable')
+  need = ('is_alive', 'has_capacity')
+  for r_ in rets:
+    var = r_.ast.value.id
+    have = {a for v, a in facts.get(r_, ()) if v == var}
+    missing = [a for a in need if a not in have]
+    if missing:
+      ctx.fail(rule, fi, f'next_idle_worker: `return {var}` only for a worker known alive and with capacity',
+               f'`return {var}` (line {r_.lineno}) is reachable without `{var}.{missing[0]}` having been'
+               f' tested true (known there: {sorted(have) or "nothing"}): a dead or saturated worker the'
+               ' pool already owns is handed out again — submit() to it waits for the heartbeat'
+               ' threshold and then raises, aborting the run although another worker is usable',
+               node=r_.ast)
+    else:
+      ctx.ok(rule, fi, f'return {var} (line {r_.lineno}): alive and has capacity', r_.ast)
+  ctx.floor(rule, 2)
+
+
 from mlmverif.selfcheck import B, OK  # noqa: E402
 
 _W = 'chainables/courier_worker.py'
 _O = 'chainables/orchestrate.py'
 _U = 'utils/courier_utils.py'
 VARIANTS = [
+    B('owned-worker-not-checked-alive', _W,
+      '      if worker.is_locked(self):\n        if worker.has_capacity and worker.is_alive:\n          return worker',
+      '      if worker.is_locked(self):\n        if worker.has_capacity:\n          return worker', 'R-C06-14'),
+    OK('owned-worker-guard-clauses', _W,
+       '      if worker.is_locked(self):\n        if worker.has_capacity and worker.is_alive:\n          return worker',
+       '      if worker.is_locked(self):\n        if not worker.is_alive:\n          continue\n        if worker.has_capacity:\n          return worker'),
+    B('tolerate-before-timeout-test', _O,
+      '            if isinstance(exc, TimeoutError) or courier_worker.is_timeout(exc):\n              logging.warning(\n                  \'chainable: %s\',\n                  f\'deadline exceeded at {task.server_name}, retrying task.\',\n              )\n              tasks.append(task.set(_exc=None))\n            elif ignore_failures:',
+      '            if ignore_failures:\n              logging.exception(\'chainable: %s\', f\'task failed with exception: {exc}, task: {task}\')\n            elif isinstance(exc, TimeoutError) or courier_worker.is_timeout(exc):\n              logging.warning(\n                  \'chainable: %s\',\n                  f\'deadline exceeded at {task.server_name}, retrying task.\',\n              )\n              tasks.append(task.set(_exc=None))\n            elif ignore_failures:',
+      'R-C06-13'),
+    OK('timeout-test-negated-first', _O,
+       '            if isinstance(exc, TimeoutError) or courier_worker.is_timeout(exc):\n              logging.warning(\n                  \'chainable: %s\',\n                  f\'deadline exceeded at {task.server_name}, retrying task.\',\n              )\n              tasks.append(task.set(_exc=None))\n            elif ignore_failures:\n              logging.exception(\n                  \'chainable: %s\',\n                  f\'task failed with exception: {exc}, task: {task}\',\n              )\n            else:\n              raise exc',
+       '            transient = isinstance(exc, TimeoutError) or courier_worker.is_timeout(exc)\n            if transient:\n              tasks.append(task.set(_exc=None))\n            elif ignore_failures:\n              logging.exception(\n                  \'chainable: %s\',\n                  f\'task failed with exception: {exc}, task: {task}\',\n              )\n            else:\n              raise exc'),
+    B('revert-reserve-at-most-candidates', _O,
+      '          num_reserved_workers = min(len(running - preferred), len(candidates))',
+      '          num_reserved_workers = len(running - preferred)', 'R-C06-12'),
+    OK('reserve-clamp-inline', _O,
+       '          num_reserved_workers = min(len(running - preferred), len(candidates))\n          reserved.update(random.sample(candidates, k=num_reserved_workers))',
+       '          reserved.update(random.sample(candidates, k=min(len(candidates), len(running - preferred))))'),
     B('liveness-before-completion', _W,
       '          if task.done():\n            if exc := task.exception():',
       '          if not task.is_alive and not task.done():\n            timeout_tasks.append(task.set(_exc=None))\n          elif not task.is_alive:\n            timeout_tasks.append(task.set(_exc=None))\n          elif task.done():\n            if exc := task.exception():',
